@@ -5,6 +5,7 @@ import props_tables
 import props_classes
 import props_gendir
 import props_crash
+import props_wellformed
 CHECKS = {
     "C01": props_parser.c01,
     "C03": props_parser.c03,
@@ -21,4 +22,5 @@ CHECKS = {
     "C13": props_gendir.c13,
     "C14": props_gendir.c14,
     "C12": props_crash.c12,
+    "C17": props_wellformed.c17,
 }
